@@ -8,9 +8,10 @@
 (*                                                                         *)
 (* Events                                                                  *)
 (*   reset       {kind, tag}                    start of a history         *)
-(*   simplify    {c, roots, res}                Circuit::simplify /        *)
-(*               res = {ok: {c, map, roots}}    Problem::simplify          *)
-(*                   | {err: literal} | {panic: message}                   *)
+(*   simplify    {via, c, roots, res}           Circuit::simplify (via =   *)
+(*               res = {ok: {c, map, roots}}    "circuit") or Problem::    *)
+(*                   | {err: literal}           simplify (via = "problem") *)
+(*                   | {panic: message, pclass: first words of message}    *)
 (*   parse       {fmt, api, cls, ac, res}       one parser call            *)
 (*               res = {ok: {p: projection}} | {err: class} | {panic: msg} *)
 (*               cls = "valid" | "trunc" | "mut" | "gen"                   *)
@@ -110,11 +111,15 @@ SimplifyErrObs(c, roots, x) ==
           O(P, "simplify.err.unknown",
                IsInput(x) => (IsUnknown(c, x) /\ VarOf(x) \in ReachUnknown(c, roots))) >>
 
+PClass(res) == IF Has(res, "pclass") THEN res.pclass ELSE "panic"
+
 SimplifyObs(r) ==
   IF ~(CircuitShape(r.c) /\ (\A i \in 1 .. Len(r.roots) : LitShape(r.roots[i]))
        /\ RefsInRange(r.c, r.roots))
-  THEN << O(P, "harness.domain", FALSE) >>
-  ELSE IF Has(r.res, "panic") THEN << O(P, "simplify.panic", FALSE) >>
+  \* a malformed problem returned by a parser is reported at its parse event
+  \* (parse.wf); a malformed circuit built by a driver is a harness error
+  THEN IF r.via = "problem" THEN <<>> ELSE << O(P, "harness.domain", FALSE) >>
+  ELSE IF Has(r.res, "panic") THEN << O(P, "simplify.panic:" \o PClass(r.res), FALSE) >>
   ELSE IF Has(r.res, "err") THEN SimplifyErrObs(r.c, r.roots, r.res.err)
   ELSE SimplifyOkObs(r.c, r.roots, r.res.ok)
 
@@ -135,7 +140,7 @@ ProblemWF(p, ac) ==
 Suffix(r) == r.fmt \o (IF r.api = "parse" THEN "" ELSE ":" \o r.api)
 
 ParseObs(r) ==
-  IF Has(r.res, "panic") THEN << O(P, "parse.panic:" \o Suffix(r), FALSE) >>
+  IF Has(r.res, "panic") THEN << O(P, "parse.panic:" \o Suffix(r) \o ":" \o PClass(r.res), FALSE) >>
   \* rejecting a member of the format is not a violation of C18 as stated
   \* ("a problem or a diagnostic"): informational
   ELSE IF Has(r.res, "err") THEN << O(PI, "parse.valid_rejected:" \o Suffix(r), r.cls # "valid") >>
